@@ -12,6 +12,7 @@ import wcsfam as W
 T0 = Time("2020-01-01T00:00:00", scale="utc")
 KINDS_1 = ["quantity", "quantity", "time", "sky1"]
 KINDS_2 = ["quantity2", "sky2d", "sky2mesh"]
+SEPARABLE = ("quantity2", "quantity3")
 
 
 def gen_layout(rng, nd, shape, n_ecs=None, allow_wcs=True):
@@ -24,7 +25,9 @@ def gen_layout(rng, nd, shape, n_ecs=None, allow_wcs=True):
     ecs = []
     n_ecs = rng.choice([0, 1, 1, 2, 2, 3, 4]) if n_ecs is None else n_ecs
     for _ in range(n_ecs):
-        if nd >= 2 and rng.random() < 0.35:
+        if nd >= 3 and rng.random() < 0.12:
+            ecs.append({"kind": "quantity3", "axes": rng.sample(range(nd), 3)})
+        elif nd >= 2 and rng.random() < 0.35:
             kind = rng.choice(KINDS_2)
             axes = rng.sample(range(nd), 2)
             if kind != "quantity2":
@@ -52,6 +55,8 @@ def names_of(k, ec):
         return [f"t{k}"]
     if kind == "quantity2":
         return [f"qa{k}", f"qb{k}"]
+    if kind == "quantity3":
+        return [f"qa{k}", f"qb{k}", f"qc{k}"]
     return [f"lon{k}", f"lat{k}"]
 
 
@@ -86,6 +91,10 @@ def add_ecs(cube, ecs, shape):
             t1 = (np.arange(n1, dtype=float) ** 2 + 7 * k) * u.m
             cube.extra_coords.add(tuple(nm), tuple(axes),
                                   QuantityTableCoordinate(t0, t1, names=tuple(nm), physical_types=(f"custom:qa{k}", f"custom:qb{k}")))
+        elif kind == "quantity3":
+            tabs = [(np.arange(shape[a], dtype=float) * (j + 2) + 50 * k + 7 * j) * u.m for j, a in enumerate(axes)]
+            cube.extra_coords.add(tuple(nm), tuple(axes),
+                                  QuantityTableCoordinate(*tabs, names=tuple(nm), physical_types=tuple(f"custom:{x}" for x in nm)))
         elif kind == "sky2d":
             n1 = shape[axes[1]]
             ii, jj = np.meshgrid(np.arange(n, dtype=float), np.arange(n1, dtype=float), indexing="ij")
@@ -123,9 +132,9 @@ def coord_deps(ecs, cube=None):
                 out.append((names[j], [nd - 1 - m]))
             continue
         nm = names_of(k, ec)
-        if ec["kind"] == "quantity2":
-            out.append((nm[0], [ec["axes"][0]]))
-            out.append((nm[1], [ec["axes"][1]]))
+        if ec["kind"] in SEPARABLE:
+            for x, a in zip(nm, ec["axes"]):
+                out.append((x, [a]))
         else:
             for x in nm:
                 out.append((x, list(ec["axes"])))
